@@ -1,7 +1,7 @@
 (* RunJson.v — correspondence runner of the JSON engine (C01, C02, C03, C04, C16, C20).
    Float text conversion is instantiated by per-case tables produced by Go (strconv.FormatFloat / ParseFloat):
    a table cannot disagree with Go; the contract the theorems assume (F1 round trip, F2 shape) is validated on every entry. *)
-From Anytype Require Import Base FloatBits Value GoInt Utf8 GoUnquote Json JsonDoc RunCommon.
+From Anytype Require Import Base FloatBits Value GoInt Utf8 GoUnquote Json JsonDoc FormatModel RunCommon.
 Local Open Scope Z_scope.
 
 Record tables := mkT { t_fmt : list (Z * (bytes * bytes)); t_pf : list (bytes * option Z) }.
@@ -133,10 +133,10 @@ Definition all_finite (v : val) : bool :=
 
 (* what FormatString(n) must be: for 0 <= n <= 10 the canonical re-layout of String(); panic otherwise *)
 Definition format_check (t : tables) (v : val) (n : Z) (obs : res bytes) : bool :=
-  if (n <? 0) || (10 <? n) then match obs with Panic => true | Ok _ => false end
-  else match obs with
-       | Panic => false
-       | Ok fs =>
+  match format_string (tb_fmt_e t) (tb_fmt_f t) v n, obs with
+  | Panic, Panic => true
+  | Panic, Ok _ | Ok _, Panic => false
+  | Ok _, Ok fs =>
            if all_finite v then
              match ref_parse fs with
              | Some ([], d, []) =>
@@ -147,7 +147,7 @@ Definition format_check (t : tables) (v : val) (n : Z) (obs : res bytes) : bool 
              | _ => false
              end
            else match fs with [] => true | _ => false end                   (* NaN / Inf: String() is not JSON, json.Indent fails *)
-       end.
+  end.
 
 (* ---------- cases ---------- *)
 Inductive jcase :=
